@@ -12,27 +12,27 @@ TRUST = 'trusts rustc nightly MIR (mir-opt-level=0) as the meaning of the source
 
 CLAIMS = {
     'C01': dict(
-        text='static (match-arm summaries, engine E4): the smart constructors are interpreted with the manager API kept uninterpreted, each arm normalised into a regex algebra; decided: the nullability table of is_nullable and that RE::make stores it for its own key; the nullable homomorphism of every leaf of concat/mk_loop/make_inter/make_union (eps in result iff eps in the SMT-LIB denotation, under the variant facts of the leaf); an exponent normal form showing each concat rewrite denotes e1.e2 (loop merging adds ranges of identical bases; S.Sigma* absorption needs S nullable); mk_loop flattening guarded by inner.right_mul_is_exact(outer) with inner.mul(outer); derived operators (diff/star/plus/opt/exp/smt_loop/smt_range/constants) and all 20 re_*/str_* wrappers against the SMT-LIB table on the thread-local manager. R6: str / concat_list / inter_list / union_list / diff_list / flatten_* visit every operand exactly once in order and end only at exhaustion; simplify_set_operation necessary conditions (sort+dedup first, top gives {top}, compaction step keeps exactly the non-bottom elements with j<=i, gives up with {top} only for a complementary id pair, cut at j after the last element); contains answers true only for a present element. G1: every user-written break/continue/return/`?` inside a loop of a function these rules interpret (inventory from the HIR) must be one the rules account for. The check also runs the rule modules of the mechanisms the statement rests on (C03 derivatives, C07 hash-consing, C11 partitions, C15 loop ranges, C16 subsumption), so a defect there is reported under this property as well. Language equality of union/inter operand pruning beyond nullability is NOT decided (soundness of subsumption is C16).',
+        text='static (match-arm summaries, engine E4): the smart constructors are interpreted with the manager API kept uninterpreted, each arm normalised into a regex algebra; decided: the nullability table of is_nullable and that RE::make stores it for its own key; the nullable homomorphism of every leaf of concat/mk_loop/make_inter/make_union (eps in result iff eps in the SMT-LIB denotation, under the variant facts of the leaf); an exponent normal form showing each concat rewrite denotes e1.e2 (loop merging adds ranges of identical bases; S.Sigma* absorption needs S nullable); mk_loop flattening guarded by inner.right_mul_is_exact(outer) with inner.mul(outer); derived operators (diff/star/plus/opt/exp/smt_loop/smt_range/constants) and all 20 re_*/str_* wrappers against the SMT-LIB table on the thread-local manager. R6: str / concat_list / inter_list / union_list / diff_list / flatten_* visit every operand exactly once in order and end only at exhaustion; simplify_set_operation necessary conditions (sort+dedup first, top gives {top}, compaction step keeps exactly the non-bottom elements with j<=i, gives up with {top} only for a complementary id pair, cut at j after the last element); contains answers true only for a present element. G1: on the canonical control-flow graph (iterator consumers lowered to loops) no function these rules interpret may have more ways out of a loop other than its own test, or more ways back to a loop head, than the reference inventory; helpers extracted later count with their callers. The check also runs the rule modules of the mechanisms the statement rests on (C03 derivatives, C07 hash-consing, C11 partitions, C15 loop ranges, C16 subsumption), so a defect there is reported under this property as well. Language equality of union/inter operand pruning beyond nullability is NOT decided (soundness of subsumption is C16).',
         note=TRUST + 'hash-consing identity (C07) lets equal ids share attributes; LoopRange operations have their C15 meaning',
         tech='match-arm term-tree summaries from abstract interpretation of MIR, compared with spec tables modulo algebraic normal forms and propositional equivalence',
         ref='5.C01'),
     'C02': dict(
-        text='static (call-log rules): compile_with_bound is interpreted with every callee uninterpreted and each loop iteration inspected: every range edge is add_transition(popped.expr, set, d.expr) with set an item of popped.char_ranges() and d = set_derivative_unchecked(popped, set), pushed on the queue, with no other builder call; the complement edge is registered exactly when not empty_complement(popped), from class_derivative_unchecked(popped, Complement); mark_final exactly when popped.nullable; stepping functions next/class_next/str_next/accepts against their table. Shares the derivative table and uniformity rule (C03), the partition rules (C11), and the builder/cleanup/state-assembly rules (C13). G1: every user-written break/continue/return/`?` inside a loop of a function these rules interpret (inventory from the HIR) must be one the rules account for. The check also runs the rule modules of the mechanisms the statement rests on (C01 constructors and nullable flag, C03, C11, C12 merge, C13 builder, C15, C16, C19 exploration), so a defect there is reported under this property as well. Language equality as such is not decided.',
+        text='static (call-log rules): compile_with_bound is interpreted with every callee uninterpreted and each loop iteration inspected: every range edge is add_transition(popped.expr, set, d.expr) with set an item of popped.char_ranges() and d = set_derivative_unchecked(popped, set), pushed on the queue, with no other builder call; the complement edge is registered exactly when not empty_complement(popped), from class_derivative_unchecked(popped, Complement); mark_final exactly when popped.nullable; stepping functions next/class_next/str_next/accepts against their table. Shares the derivative table and uniformity rule (C03), the partition rules (C11), and the builder/cleanup/state-assembly rules (C13). G1: on the canonical control-flow graph (iterator consumers lowered to loops) no function these rules interpret may have more ways out of a loop other than its own test, or more ways back to a loop head, than the reference inventory; helpers extracted later count with their callers. The check also runs the rule modules of the mechanisms the statement rests on (C01 constructors and nullable flag, C03, C11, C12 merge, C13 builder, C15, C16, C19 exploration), so a defect there is reported under this property as well. Language equality as such is not decided.',
         note=TRUST + 'panics of class_next are only bounds/unwrap on ill-formed automata (ids < num_states and default present whenever the complement is non-empty are data invariants established by the builder rules)',
         tech='abstract interpretation with all callees uninterpreted; per-iteration call-log dataflow rules; match-arm tables',
         ref='5.C02'),
     'C03': dict(
-        text='static (engine E4): every arm of compute_derivative is summarised as a term tree and must equal the Brzozowski rule of its variant with all child derivatives taken for the same character; uniformity: the children an arm consults are children whose partitions BaseRegLan::deriv_class merges under the same guards, the character flows only into derivatives/contains, RE::make stores deriv_class of its own key; cache discipline of cached_deriv/deriv; BadClassId validation in class_derivative/start_class; set_derivative goes through class_of_set and propagates its error; str_derivative/str_in_re fold; plus the C11 partition rules (class_of_char, interval_cover) on which the class/ambiguity clauses rest. G1: every user-written break/continue/return/`?` inside a loop of a function these rules interpret (inventory from the HIR) must be one the rules account for. The check also runs the rule modules of the mechanisms the statement rests on (C01, C11, C12, C15, C16), so a defect there is reported under this property as well.',
+        text='static (engine E4): every arm of compute_derivative is summarised as a term tree and must equal the Brzozowski rule of its variant with all child derivatives taken for the same character; uniformity: the children an arm consults are children whose partitions BaseRegLan::deriv_class merges under the same guards, the character flows only into derivatives/contains, RE::make stores deriv_class of its own key; cache discipline of cached_deriv/deriv; BadClassId validation in class_derivative/start_class; set_derivative goes through class_of_set and propagates its error; str_derivative/str_in_re fold; plus the C11 partition rules (class_of_char, interval_cover) on which the class/ambiguity clauses rest. G1: on the canonical control-flow graph (iterator consumers lowered to loops) no function these rules interpret may have more ways out of a loop other than its own test, or more ways back to a loop head, than the reference inventory; helpers extracted later count with their callers. The check also runs the rule modules of the mechanisms the statement rests on (C01, C11, C12, C15, C16), so a defect there is reported under this property as well.',
         note=TRUST + 'that the manager constructors used in the rules preserve languages is C01; textbook rule = specification (a different but equivalent derivative rule would be reported as table-mismatch)',
         tech='match-arm term-tree summaries compared with the Brzozowski table; consult-set/class-set inclusion; call-log dataflow for the cache',
         ref='5.C03'),
     'C04': dict(
-        text='static, necessary conditions only: the correctness and minimality of the Hopcroft refinement loop depend on array contents over all transition tables and are NOT decided. Decided: remap taint (every old state index reaches the new automaton through new_id exactly once; final count recomputed from kept states); from_partition (new_id[s]=block_id(s)-1 over all states, old_id[b-1]=pick_element(b) over all blocks); Hopcroft activation safety table of upate_splitters_after_refinement (refines pred_classes[s.char] at s.class with the predicate "successor lands in block i", new splitters (i,class1)/(j,class2) added iff non-empty, active old splitter gives two active, otherwise at least one); ordering in refine_with_splitter (own block withdrawn first, refined last, exactly once); partition bookkeeping (result table, exact counting, relabelling of exactly the new block, split at start+n); minimize plumbing (finality and delta closures, remap only on a real merge, initial splitters, refine loop). R7 splitter store: take_list is total (a block without predecessors has no list - the defect fixed in c77bd1f), SplitterList::add keeps the active flag of every item and gives the new item the requested one (entailments over the arguments of the intercepted swap and a fresh position), pick_active hands out exactly the item it deactivates, the iterator reports index<num_active, add_splitter/pick_splitter/has_active_splitter tables; collect_refinement_candidates inserts the block of every predecessor iff it is not a singleton and visits all of them. G1: every user-written break/continue/return/`?` inside a loop of a function these rules interpret (inventory from the HIR) must be one the rules account for. The check also runs the rule modules of the mechanisms the statement rests on (C11, C12, C14), so a defect there is reported under this property as well.',
+        text='static, necessary conditions only: the correctness and minimality of the Hopcroft refinement loop depend on array contents over all transition tables and are NOT decided. Decided: remap taint (every old state index reaches the new automaton through new_id exactly once; final count recomputed from kept states); from_partition (new_id[s]=block_id(s)-1 over all states, old_id[b-1]=pick_element(b) over all blocks); Hopcroft activation safety table of upate_splitters_after_refinement (refines pred_classes[s.char] at s.class with the predicate "successor lands in block i", new splitters (i,class1)/(j,class2) added iff non-empty, active old splitter gives two active, otherwise at least one); ordering in refine_with_splitter (own block withdrawn first, refined last, exactly once); partition bookkeeping (result table, exact counting, relabelling of exactly the new block, split at start+n); minimize plumbing (finality and delta closures, remap only on a real merge, initial splitters, refine loop). R7 splitter store: take_list is total (a block without predecessors has no list - the defect fixed in c77bd1f), SplitterList::add keeps the active flag of every item and gives the new item the requested one (entailments over the arguments of the intercepted swap and a fresh position), pick_active hands out exactly the item it deactivates, the iterator reports index<num_active, add_splitter/pick_splitter/has_active_splitter tables; collect_refinement_candidates inserts the block of every predecessor iff it is not a singleton and visits all of them. G1: on the canonical control-flow graph (iterator consumers lowered to loops) no function these rules interpret may have more ways out of a loop other than its own test, or more ways back to a loop head, than the reference inventory; helpers extracted later count with their callers. The check also runs the rule modules of the mechanisms the statement rests on (C11, C12, C14), so a defect there is reported under this property as well.',
         note=TRUST + 'block ids >= 1, u32/usize casts lossless, positions <= isize::MAX; the refinement loop as a whole is outside static reach (DESIGN 7)',
         tech='call-log dataflow rules and table comparison over abstractly interpreted MIR (callees uninterpreted), taint rule for the remapping',
         ref='5.C04'),
     'C05': dict(
-        text='static (call-log rules): is_empty_re is exactly "no nullable term among iter_derivatives(e)"; get_string_path tests nullability of the popped term before expanding it, returns the path of that same term, and pushes (popped, cid, class_derivative_unchecked(popped, cid)) for the class ids of the popped term; get_string maps each path element to the representative of its own (term, class) and converts through the sanitising constructor; LabeledQueue first-visit rule, root edge, front pop, predecessor walk and single reversal. G1: every user-written break/continue/return/`?` inside a loop of a function these rules interpret (inventory from the HIR) must be one the rules account for. The check also runs the rule modules of the mechanisms the statement rests on (C01, C03, C11, C12, C19), so a defect there is reported under this property as well.  Exactness then follows from C01/C03/C19.',
+        text='static (call-log rules): is_empty_re is exactly "no nullable term among iter_derivatives(e)"; get_string_path tests nullability of the popped term before expanding it, returns the path of that same term, and pushes (popped, cid, class_derivative_unchecked(popped, cid)) for the class ids of the popped term; get_string maps each path element to the representative of its own (term, class) and converts through the sanitising constructor; LabeledQueue first-visit rule, root edge, front pop, predecessor walk and single reversal. G1: on the canonical control-flow graph (iterator consumers lowered to loops) no function these rules interpret may have more ways out of a loop other than its own test, or more ways back to a loop head, than the reference inventory; helpers extracted later count with their callers. The check also runs the rule modules of the mechanisms the statement rests on (C01, C03, C11, C12, C19), so a defect there is reported under this property as well.  Exactness then follows from C01/C03/C19.',
         note=TRUST + 'pick_in_class and class id iteration are decided under C11; derivative exactness under C03',
         tech='abstract interpretation with callees uninterpreted; per-iteration call-log dataflow rules',
         ref='5.C05'),
@@ -57,7 +57,7 @@ CLAIMS = {
         tech='abstract interpretation of MIR in two build configurations with inferred inductive loop invariants over ghost predicates; arithmetic-discipline obligations (no unproved wrap/truncation)',
         ref='5.C09'),
     'C10': dict(
-        text='static: naive_re_search is proved leftmost-then-shortest by inferred loop invariants over ghost predicates (running derivative of the matched substring, no shorter match at the position, no earlier start position; the empty-term break only skips dead extensions); the early empty match is returned exactly when allowed and the pattern is nullable; NotFound only after every start position is dead; str_replace_re / str_replace_re_all drive it with the right start/allow_empty arguments, resume at the end of the match, and splice exactly around the reported match through the sanitising conversions. G1: every user-written break/continue/return/`?` inside a loop of a function these rules interpret (inventory from the HIR) must be one the rules account for. The check also runs the rule modules of the mechanisms the statement rests on (C01, C03, C11), so a defect there is reported under this property as well.',
+        text='static: naive_re_search is proved leftmost-then-shortest by inferred loop invariants over ghost predicates (running derivative of the matched substring, no shorter match at the position, no earlier start position; the empty-term break only skips dead extensions); the early empty match is returned exactly when allowed and the pattern is nullable; NotFound only after every start position is dead; str_replace_re / str_replace_re_all drive it with the right start/allow_empty arguments, resume at the end of the match, and splice exactly around the reported match through the sanitising conversions. G1: on the canonical control-flow graph (iterator consumers lowered to loops) no function these rules interpret may have more ways out of a loop other than its own test, or more ways back to a loop head, than the reference inventory; helpers extracted later count with their callers. The check also runs the rule modules of the mechanisms the statement rests on (C01, C03, C11), so a defect there is reported under this property as well.',
         note=TRUST + 'nullable derivative = membership is C01/C03; the derivative of the empty term stays empty (C03.R1)',
         tech='abstract interpretation of MIR with inferred inductive loop invariants over ghost predicates; call-log rules for the drivers; sequence-content comparison for the splices',
         ref='5.C10'),
@@ -72,12 +72,12 @@ CLAIMS = {
         tech='abstract interpretation of MIR with an inferred inductive loop invariant (ghost last-emitted end), per-iteration step obligations decided by the in-checker linear-arithmetic procedure',
         ref='5.C12'),
     'C13': dict(
-        text='static: an effect summary finds the functions that rewrite a state specification (cleanup, choose_default_successor, remove_transitions_to_default); in build, when the first of them is reached the path must already carry make_partition(unmodified state) = Ok and the completeness fact (default declared or complement empty) - validate before mutate; cleanup only relabels (default chosen only when undeclared, from an existing target - ghost predicate through the majority loop; retain keeps exactly transitions not to the default); every State is assembled from the partition/successors/default/finality of its own cleaned state with its enumerate index as id; make_successor stores each target under the class of its own set; get_state_id/new/mark_final/add_transition/set_default_successor bookkeeping.; cleanup chooses the default before dropping the transitions into it; R5: build/build_unchecked apply the specification-rewriting functions to a copy, so a later add_transition + build is judged on what the caller gave (the defect fixed in 3dd86cd). G1: every user-written break/continue/return/`?` inside a loop of a function these rules interpret (inventory from the HIR) must be one the rules account for.',
+        text='static: an effect summary finds the functions that rewrite a state specification (cleanup, choose_default_successor, remove_transitions_to_default); in build, when the first of them is reached the path must already carry make_partition(unmodified state) = Ok and the completeness fact (default declared or complement empty) - validate before mutate; cleanup only relabels (default chosen only when undeclared, from an existing target - ghost predicate through the majority loop; retain keeps exactly transitions not to the default); every State is assembled from the partition/successors/default/finality of its own cleaned state with its enumerate index as id; make_successor stores each target under the class of its own set; get_state_id/new/mark_final/add_transition/set_default_successor bookkeeping.; cleanup chooses the default before dropping the transitions into it; R5: build/build_unchecked apply the specification-rewriting functions to a copy, so a later add_transition + build is judged on what the caller gave (the defect fixed in 3dd86cd). G1: on the canonical control-flow graph (iterator consumers lowered to loops) no function these rules interpret may have more ways out of a loop other than its own test, or more ways back to a loop head, than the reference inventory; helpers extracted later count with their callers.',
         note=TRUST + 'try_from_iter (disjointness) is the partition constructor decided under C11',
         tech='effect summary over the call graph + abstract interpretation with callees uninterpreted (must-precede as path facts at the call site), ghost-predicate loop invariant for the majority vote',
         ref='5.C13'),
     'C14': dict(
-        text='static: remap taint (id, every successor element in place, default, initial state through new_id; state old_id[i] kept as new state i; final count from kept flags); remove_unreachable_states BFS shape (seed, every popped id recorded, edge targets of the popped state pushed, sorted, from_array inverse on kept nodes); EdgeIterator::next and FinalStateIterator::next decided per leaf against class_next semantics; compile_successors pairs (i, next(s, alphabet[i]).id) for the same i, filters exactly chars mapping to the default, sets the default iff present; combined_char_partition/pick_alphabet plumbing; CompactTable encoding agreement (slot base[i]+c in store/conflict/eval, owner tag, free-slot sentinel num_states in new/resize/conflict test, default fallback). set_successors stores a row only at a base for which base_conflicts answered false. G1: every user-written break/continue/return/`?` inside a loop of a function these rules interpret (inventory from the HIR) must be one the rules account for.  Not decided: exact reachability as a set.',
+        text='static: remap taint (id, every successor element in place, default, initial state through new_id; state old_id[i] kept as new state i; final count from kept flags); remove_unreachable_states BFS shape (seed, every popped id recorded, edge targets of the popped state pushed, sorted, from_array inverse on kept nodes); EdgeIterator::next and FinalStateIterator::next decided per leaf against class_next semantics; compile_successors pairs (i, next(s, alphabet[i]).id) for the same i, filters exactly chars mapping to the default, sets the default iff present; combined_char_partition/pick_alphabet plumbing; CompactTable encoding agreement (slot base[i]+c in store/conflict/eval, owner tag, free-slot sentinel num_states in new/resize/conflict test, default fallback). set_successors stores a row only at a base for which base_conflicts answered false. G1: on the canonical control-flow graph (iterator consumers lowered to loops) no function these rules interpret may have more ways out of a loop other than its own test, or more ways back to a loop head, than the reference inventory; helpers extracted later count with their callers.  Not decided: exact reachability as a set.',
         note=TRUST + 'usize->u32 casts of ids lossless; merge/picks semantics from C12/C11',
         tech='abstract interpretation of MIR (per-leaf tables) + call-log dataflow rules + taint rule',
         ref='5.C14'),
